@@ -267,3 +267,28 @@ func coqKind(kind string) string {
 	}
 	return "(TTcp false)"
 }
+
+// replayInterop re-runs the both-real-roles case of a replay file, if that is what the file holds.
+func replayInterop(env *Env, prop string) bool {
+	var ri interopCase
+	if ok, _ := env.ReplayDesc(&ri); !ok || !ri.Interop {
+		return false
+	}
+	env.Header = hsHeader + "Hs.ClientBuilder Hs.Builder Corr.Builder Corr.Interop Corr." + prop + "."
+	var srv *scriptServer
+	if ri.Built != "" {
+		for _, spec := range builtSpecs {
+			if spec.name == ri.Built {
+				srv = newBuiltServer(spec, true)
+			}
+		}
+	}
+	if srv == nil {
+		srv = newScriptServer(ri.Conf, ri.Oracle)
+	}
+	defer srv.Close()
+	c := srv.runInterop(ri.CConf, ri.Ident)
+	c.Built = ri.Built
+	env.Add(c.coq(), c)
+	return true
+}
